@@ -205,34 +205,41 @@ def check_vcf(res, g, cov, sols, text, desc, sample="smp"):
                       "against the reference", mech="vcf-nonsnp-refalt" if buggy else None,
                       record=r[:5], variant=str(m), **desc)
         for si, s in enumerate(sols):
-            cell = dict(zip(fmt, r[9 + si].split(":")))
             n = len(s.solution)
+            raw = r[9 + si]
             exp = [1 if m in carried(g, a) else 0 for a in s.solution]
-            gt = cell.get("GT", "").split("|")
-            got = [int(x) if x.isdigit() else -1 for x in gt]
             defect = [1 if ai in union[m] else 0 for ai in range(n)]
+
+            def cell_for(bits):
+                return ":".join([
+                    "|".join(str(b) for b in bits), str(cov[m]),
+                    ",".join(f"*{a.major}" if e else "-" for a, e in zip(s.solution, bits)),
+                    ",".join(f"*{a.minor}" if e else "-" for a, e in zip(s.solution, bits))])
+
+            res.check("vcf_format", r[8] == "GT:DP:MA:MI", "FORMAT column is not GT:DP:MA:MI", got=r[8], **desc)
             mech = None
-            if got != exp and got == defect:
-                lost = any(e == 0 and d == 1 and (m in (tables.allele_variants(g, a.major, a.minor) | set(a.added)))
-                           for e, d, a in zip(exp, defect, s.solution))
+            if raw != cell_for(exp) and raw == cell_for(defect):
                 other = any(e == 0 and d == 1 and (m not in (tables.allele_variants(g, a.major, a.minor) | set(a.added)))
                             for e, d, a in zip(exp, defect, s.solution))
                 mech = "vcf-shared-table" if other else "vcf-lost-variant"
+            gt = raw.split(":")[0].split("|")
+            got = [int(x) if x.isdigit() else -1 for x in gt]
             res.check("vcf_gt", got == exp,
                       "GT of a sample column differs from 'copy i carries the variant in this solution'",
                       mech=mech, variant=str(m), solution=si, got=gt, expected=exp, **desc)
-            ma = cell.get("MA", "").split(",")
-            mi = cell.get("MI", "").split(",")
-            exp_ma = [f"*{a.major}" if e else "-" for a, e in zip(s.solution, exp)]
-            exp_mi = [f"*{a.minor}" if e else "-" for a, e in zip(s.solution, exp)]
-            def_ma = [f"*{a.major}" if e else "-" for a, e in zip(s.solution, defect)]
-            def_mi = [f"*{a.minor}" if e else "-" for a, e in zip(s.solution, defect)]
-            ok = (ma == exp_ma and mi == exp_mi)
-            res.check("vcf_mami", ok, "MA/MI do not name exactly the carrying copies",
-                      mech=mech if (not ok and ma == def_ma and mi == def_mi) else None,
-                      variant=str(m), solution=si, ma=ma, mi=mi, expected=[exp_ma, exp_mi], **desc)
-            res.check("vcf_dp", cell.get("DP") == str(cov[m]), "DP is not the variant's read support",
-                      variant=str(m), got=cell.get("DP"), expected=cov[m], **desc)
+            res.check("vcf_mami", raw == cell_for(exp) or (got != exp and raw == cell_for(got)),
+                      "DP/MA/MI do not state the read support and exactly the carrying copies",
+                      mech=mech if raw == cell_for(defect) else None,
+                      variant=str(m), solution=si, cell=raw, expected=cell_for(exp), **desc)
+            named = [a for a, e in zip(s.solution, got if len(got) == n else exp) if e == 1]
+            if any(":" in a.major or ":" in a.minor for a in named):
+                res.check("vcf_cell_parseable", False,
+                          "allele name contains ':' (aldy's own renaming, e.g. CYP2D6*68:2) - the sample cell "
+                          "cannot be split into GT:DP:MA:MI unambiguously", mech="vcf-colon-in-name",
+                          cell=raw, **desc)
+            else:
+                res.check("vcf_cell_parseable", raw.count(":") == 3, "sample cell does not have four fields",
+                          cell=raw, **desc)
     missing = want_vars - seen
     res.check("vcf_all_variants", not missing, "a carried variant has no VCF record",
               variants=[str(m) for m in sorted(missing)], **desc)
